@@ -443,3 +443,27 @@ Proof.
   rewrite nth_error_update_same by (apply nth_error_Some; rewrite G; discriminate).
   reflexivity.
 Qed.
+
+(* ------------------------------------------------------------------ other databases are untouched *)
+(* a step leaves every database other than the one its connection has selected exactly as it
+   was (SELECT leaves all of them) *)
+Theorem other_db_untouched s conn now nowms args hint j :
+  j <> sel_lookup conn (ssel s) \/ is_select args = true ->
+  nth_error (sdbs (snd (srv_exec s conn now nowms args hint))) j = nth_error (sdbs s) j.
+Proof.
+  intros H. destruct args as [|nm rest]; [reflexivity|].
+  destruct (is_select (nm :: rest)) eqn:ES.
+  - rewrite srv_exec_select by exact ES. rewrite exec_select_dbs. reflexivity.
+  - destruct H as [N|H]; [|discriminate].
+    rewrite srv_exec_other by (try exact ES; discriminate).
+    destruct (nth_error (sdbs s) (sel_lookup conn (ssel s))); [|reflexivity].
+    cbn [snd sdbs]. apply nth_error_update_other. exact N.
+Qed.
+
+(* over programs: a database to which no command is addressed does not change *)
+Theorem unaddressed_db_unchanged p i s d :
+  nth_error (sdbs s) i = Some d -> addressed i s p = [] ->
+  nth_error (sdbs (snd (srv_run s p))) i = Some d.
+Proof.
+  intros G A. destruct (one_keyspace_per_index p i s d G) as [H _]. rewrite A in H. exact H.
+Qed.
